@@ -142,10 +142,37 @@ def conc_part(run, q):
                                  "case": {"trace": x["trace"]}})
 
 
+def conc_fault_part(run, q):
+    """C12 under concurrency: the re-protection of a reader's release fails while other readers / a Close are in flight: the error
+    is reported to that reader, nobody deadlocks, Close still completes and unmaps (SecMemConcTrace.tla)."""
+    run.spec_files("SecMemConcTrace.tla")
+    run.vdrv(sched=True)
+    binary = run.gobin("memdrv")
+    trace = os.path.join(run.work, "trace.ndjson")
+    for k in (1, 2):
+        cfg = {"impls": ["pm", "mg"], "readers": 2, "closers": 1, "reads": 2, "random": 40 if q else 300, "pct": 120 if q else 800,
+               "dfs": 300 if q else 3000, "preempt": 2, "sizes": [32], "faultRelease": k}
+        try:
+            res = run.drv(["-conc", json.dumps(cfg), "-seed", str(run.seed), "-trace", trace], timeout=1500, binary=binary, ok_codes=(0,))
+        except Infra as e:
+            if "SIGSEGV" in str(e) or "unexpected fault address" in str(e) or "fatal error" in str(e):
+                run.findings.append({"kind": "process-crash after a failed release (fault %d)" % k, "detail": str(e)[-1500:], "case": {"cfg": cfg}})
+                continue
+            raise
+        run.absorb(res)
+        for x in validate_traces(run, "SecMemConcTrace.tla", {}, [], trace, "conc-fault-%d" % k, max_reject=4):
+            ev, rs = x["event"], x["reset"]
+            what = {"read": "reader-saw-wrong-state-or-spurious-error", "close": "close-failed", "end": "not-gone-after-close", "final": "deadlock-or-panic"}.get(ev.get("e"), str(ev.get("e")))
+            run.findings.append({"kind": "%s after a failed release impl=%s (fault on re-protection %d)" % (what, rs.get("impl"), k),
+                                 "detail": "%s: %s (schedule of %d choices, strategy %s)" % (x["why"], json.dumps(ev)[:300], len(rs.get("choices", [])), rs.get("strategy")),
+                                 "case": {"trace": x["trace"]}})
+
+
 def check_C12(run: Run):
     q = run.quick
     seq_part(run, 4 if q else 6, 2, "faults", view=None if q else "GenView")
     seq_part(run, 3 if q else 4, 1, "faults+panicking-callbacks", view=None, panic_reads=True)
+    conc_fault_part(run, q)
     if not q:
         seq_part(run, 5, 2, "faults-sequences", view=None)
     return run.finish("model_checking",
